@@ -133,6 +133,22 @@ def u_ann(c):
         c.prove("other-string/unchanged", r is node)
 
 
+@unit("TagSet.equality", ["C11"], [TG + ":TagSet.__eq__", TG + ":_merge", TG + ":TagSet.__init__"])
+def u_tagset_eq(c):
+    """Tag sets behave as sets: two tag sets are equal iff they have the same members (whatever the order and repetition of &), and a
+    tag set is never equal to something that is not a tag set."""
+    it = Interp(c)
+    tags = _tags(it)
+    band = lambda a, b: it.binop(ast.BitAnd(), a, b)
+    sets = [("A&B", band(tags["A"], tags["B"]), {"A", "B"}), ("B&A", band(tags["B"], tags["A"]), {"A", "B"}), ("A&B&A", band(band(tags["A"], tags["B"]), tags["A"]), {"A", "B"}),
+            ("A&C", band(tags["A"], tags["C"]), {"A", "C"}), ("A&B&C", band(band(tags["A"], tags["B"]), tags["C"]), {"A", "B", "C"})]
+    n1, s1, m1 = sets[c.choose(len(sets), "left")]
+    n2, s2, m2 = sets[c.choose(len(sets), "right")]
+    eq = it.truth(it.compare(ast.Eq(), s1, s2))
+    c.prove("equal-iff-same-members", eq == (m1 == m2), note=f"{n1} == {n2}: {eq}")
+    c.prove("never-equal-to-a-single-tag-or-a-string", not it.truth(it.compare(ast.Eq(), s1, tags["A"])) and not it.truth(it.compare(ast.Eq(), s1, "A & B")))
+
+
 @unit("should_instrument", ["C11", "C01", "C16", "C04", "C02"], [TR + ":PteraTransformer.should_instrument", S + ":check_element", TG + ":match_tag"])
 def u_should_instrument(c):
     """should_instrument(name, ann) <=> some element of the capture set matches (name, evaluated annotation): exactly the
